@@ -156,7 +156,17 @@ def run(ck):
                         clusters.append((u, v))
             if isinstance(res, Exception) or len(clusters) != c['count']:
                 axp = 'axis-parallel' in tg and not isinstance(res, Exception) and len(clusters) < c['count']
-                ck.disagree(key='bezier_intersections/' + ('axis-parallel-straight-bezier-crossing-lost' if axp else 'wrong-number-of-crossings'),
+                # a crossing at dyadic parameters of both curves (a corner of the subdivision) is the recorded open finding: the parameters are those the
+                # Line spelling of the same pair reports (same parameterisation of both curves)
+                dy = False
+                if not axp and not isinstance(res, Exception) and len(clusters) < c['count']:
+                    isdy = lambda t_: abs(t_ * 4096 - round(t_ * 4096)) < 1e-7      # noqa
+                    ref_ = [(float(u_), float(v_)) for u_, v_ in a.intersect(b)]
+                    if 'swapped' in tg:
+                        ref_ = [(v_, u_) for u_, v_ in ref_]
+                    missing = [r_ for r_ in ref_ if not any(abs(r_[0] - cu) < 1e-4 and abs(r_[1] - cv) < 1e-4 for cu, cv in clusters)]
+                    dy = bool(missing) and all(isdy(u_) and isdy(v_) for u_, v_ in missing)
+                ck.disagree(key='bezier_intersections/' + ('axis-parallel-straight-bezier-crossing-lost' if axp else 'dyadic-crossing-lost' if dy else 'wrong-number-of-crossings'),
                             site='svgpathtools/bezier.py:bezier_intersections',
                             what='[%s] %r x %r: %s distinct crossings reported, exact number %d' % (tg, x_, y_, res if isinstance(res, Exception) else len(clusters), c['count']),
                             case={'pr': pr, 'count': c['count'], 'bez': True}, expected=c['count'], observed=repr(res), driver='completeness')
@@ -167,6 +177,15 @@ def run(ck):
                             case={'pr': pr, 'count': c['count'], 'bez': True}, expected=c['count'], observed=[(float(u), float(v)) for u, v in res], driver='completeness')
                 break
     ck.sample('count', cases[0])
+    # two crossings that terminate at the same level of the subdivision, in both operand orders (one was dropped unvisited before 650ddc2)
+    for zq_, zc_ in (([-36 - 10.5j, 37.5j, 36 + 85.5j], [0j, -18 + 26j, -16 + 37j, 6 + 33j]), ([-24 - 19.5j, 12 + 28.5j, 48 + 76.5j], [12 - 9j, -6 + 17j, -4 + 28j, 18 + 24j])):
+        lq_, cc_ = cm.mk([w.real for w in zq_], [w.imag for w in zq_]), cm.mk([w.real for w in zc_], [w.imag for w in zc_])
+        ref_ = cc_.intersect(sp.Line(lq_.start, lq_.end))
+        for x_, y_, sw_ in ((cc_, lq_, False), (lq_, cc_, True)):
+            ck.case(fp=('two-crossings-same-level', str(zq_), sw_), nontrivial=True)
+            known_ = [((v_, u_) if sw_ else (u_, v_)) + (cc_.point(u_),) for u_, v_ in ref_]
+            report_case(ck, 'straight quadratic x degree-elevated quadratic, two crossings', x_, y_, [(float(a_), float(b_), c_) for a_, b_, c_ in known_],
+                        {'zq': [str(w) for w in zq_], 'zc': [str(w) for w in zc_], 'swapped': sw_})
     # the recorded example of the open duplicate finding is replayed on every run (so the KNOWN-FINDING line does not depend on the seed)
     za = [1 + 4j, 1 + 0j, 4 + 4j, -3j]
     zb = [-3 + 1j, 4 - 3j, 6 + 4j, 1 + 4j]
